@@ -317,40 +317,6 @@ Section Flow.
     repeat split; try lia; try assumption. destruct cmp; lia.
   Qed.
 
-  Lemma stale_search_result fuel fs si ssz ps stale k r :
-    stale_search colflow fuel fs si ssz ps stale k = Some r ->
-    let '(k', fi, fsz) := r in
-    k <= k' /\ k' <= fi /\ 1 <= fsz /\ intersect_with_children (mk_area colflow fi fsz si ssz) ps = false.
-  Proof.
-    revert stale k. induction fuel as [|f IH]; intros stale k; cbn; [discriminate|].
-    destruct (pl_line_end fs (stale + 1 + get_span fs)) as [fi fsz] eqn:E.
-    destruct (fi <? k) eqn:C.
-    { intros H. specialize (IH _ _ H). destruct r as [[k' fi'] fsz']. intuition lia. }
-    destruct (intersect_with_children (mk_area colflow fi fsz si ssz) ps) eqn:I.
-    { intros H. specialize (IH _ _ H). destruct r as [[k' fi'] fsz']. intuition lia. }
-    intros H. inversion H; subst. pose proof (pl_line_end_size fs (stale + 1 + get_span fs)) as P. rewrite E in P. cbn in P.
-    repeat split; try lia; assumption.
-  Qed.
-
-  (* the loop reading the stale first_i exits at its first iteration or never: Hang is a real divergence *)
-  Lemma stale_search_diverges n si ssz ps stale k : 1 <= n ->
-    stale_search colflow 1 (GSpan n) si ssz ps stale k = None ->
-    forall fuel, stale_search colflow fuel (GSpan n) si ssz ps stale k = None.
-  Proof.
-    intros Hn H1 fuel.
-    assert (E : forall s, pl_line_end (GSpan n) (s + 1 + get_span (GSpan n)) = (s, n)).
-    { intros s. unfold pl_line_end, norm, get_span, or1. split_ifs; f_equal; lia. }
-    cbn in H1. rewrite E in H1.
-    assert (G : forall fuel k', k <= k' -> (stale <? k) = true \/ intersect_with_children (mk_area colflow stale n si ssz) ps = true ->
-                stale_search colflow fuel (GSpan n) si ssz ps stale k' = None).
-    { induction fuel0 as [|f IH]; intros k' Hk Hc; [reflexivity|]. cbn. rewrite E.
-      destruct Hc as [Hc | Hc].
-      - assert (C : (stale <? k') = true) by lia. rewrite C. apply IH; [lia | auto].
-      - destruct (stale <? k'); [apply IH; [lia | auto]|]. rewrite Hc. apply IH; [lia | auto]. }
-    apply G; [lia|]. destruct (stale <? k); [auto|].
-    destruct (intersect_with_children (mk_area colflow stale n si ssz) ps); [auto | discriminate].
-  Qed.
-
   Lemma scan_second_result n fs fe ss se ps k fi r :
     scan_second colflow is2 n fs fe ss se ps k fi = Some r ->
     let '(a, fi', fsz) := r in
@@ -650,13 +616,9 @@ Section Phases.
     - destruct dense.
       + destruct (first_search colflow _ false _ _ if1 si ssz _ if1) as [[[k fi] fsz]|] eqn:S; [discriminate|].
         exfalso. revert S. apply first_search_fuel; auto; unfold search_fuel; lia.
-      + destruct (fst_s colflow it) eqn:Efs; [| discriminate N1 |].
-        * match goal with |- context[first_search colflow ?f true GAuto ?e ?c si ssz ?p ?k] =>
-            destruct (first_search colflow f true GAuto e c si ssz p k) as [[[k' fi] fsz]|] eqn:S end; [discriminate|].
-          exfalso. revert S. apply first_search_fuel; auto; unfold search_fuel; lia.
-        * destruct (st_stale st); [|discriminate].
-          match goal with |- context[stale_search ?a ?b ?c ?d ?e ?f ?g ?h] =>
-            destruct (stale_search a b c d e f g h) as [[[k' fi] fsz]|] end; discriminate.
+      + match goal with |- context[first_search colflow ?f true ?g ?e ?c si ssz ?p ?k] =>
+          destruct (first_search colflow f true g e c si ssz p k) as [[[k' fi] fsz]|] eqn:S end; [discriminate|].
+        exfalso. revert S. apply first_search_fuel; auto; unfold search_fuel; lia.
     - specialize (F eq_refl). apply get_placement_none in E as [N3 N4].
       match goal with |- context[auto_loop ?a ?b ?c ?d ?e ?f ?g ?h ?i ?j ?k ?l] =>
         destruct (auto_loop a b c d e f g h i j k l) as [[[[[a' fi] fsz] cf'] if2']|] eqn:S end; [discriminate|].
@@ -681,21 +643,10 @@ Section Phases.
       + destruct (first_search colflow _ false _ _ if1 si ssz _ if1) as [[[k fi] fsz]|] eqn:S; [|discriminate].
         apply first_search_result in S as [_ [S1 [S2 _]]]. intros H; inversion H; subst; cbn [st_log].
         eexists; repeat split; eauto using area_pos_mk.
-      + destruct (fst_s colflow it) eqn:Efs.
-        * match goal with |- context[first_search colflow ?f true GAuto ?e ?c si ssz ?p ?k] =>
-            destruct (first_search colflow f true GAuto e c si ssz p k) as [[[k' fi] fsz]|] eqn:S end; [|discriminate].
-          apply first_search_result in S as [_ [S1 [S2 _]]]. intros H; inversion H; subst; cbn [st_log].
-          eexists; repeat split; eauto using area_pos_mk.
-        * destruct (st_stale st); [|discriminate].
-          match goal with |- context[stale_search ?a ?b ?c ?d ?e ?f ?g ?h] =>
-            destruct (stale_search a b c d e f g h) as [[[k' fi] fsz]|] eqn:S end; [|discriminate].
-          apply stale_search_result in S as [_ [_ [S1 S2]]]. intros H; inversion H; subst; cbn [st_log].
-          eexists; repeat split; eauto using area_pos_mk.
-        * destruct (st_stale st); [|discriminate].
-          match goal with |- context[stale_search ?a ?b ?c ?d ?e ?f ?g ?h] =>
-            destruct (stale_search a b c d e f g h) as [[[k' fi] fsz]|] eqn:S end; [|discriminate].
-          apply stale_search_result in S as [_ [_ [S1 S2]]]. intros H; inversion H; subst; cbn [st_log].
-          eexists; repeat split; eauto using area_pos_mk.
+      + match goal with |- context[first_search colflow ?f true ?g ?e ?c si ssz ?p ?k] =>
+          destruct (first_search colflow f true g e c si ssz p k) as [[[k' fi] fsz]|] eqn:S end; [|discriminate].
+        apply first_search_result in S as [_ [S1 [S2 _]]]. intros H; inversion H; subst; cbn [st_log].
+        eexists; repeat split; eauto using area_pos_mk.
     - match goal with |- context[auto_loop ?a ?b ?c ?d ?e ?f ?g ?h ?i ?j ?k ?l] =>
         destruct (auto_loop a b c d e f g h i j k l) as [[[[[a' fi] fsz] cf'] if2']|] eqn:S end; [|discriminate].
       apply auto_loop_result in S as [_ [_ [cs' [_ [_ S]]]]]. apply scan_second_result in S as [S1 [k' [z [_ [-> [_ [_ [S2 S3]]]]]]]].
@@ -707,7 +658,7 @@ Section Phases.
   Proof.
     induction rem as [|[i it] r IH]; intros st st'; cbn [phase14].
     { intros H; inversion H; subst. split; [constructor | intros ? ? []]. }
-    destruct (step14 colflow dense is1 is2 if1 st (i, it)) as [st1| | |] eqn:S; try discriminate.
+    destruct (step14 colflow dense is1 is2 if1 st (i, it)) as [st1|] eqn:S; try discriminate.
     intros H. destruct (IH _ _ H) as [C P]. destruct (step14_push _ _ _ _ S) as [a [E [A1 A2]]].
     assert (C1 : chain (st_log st) (st_log st1)) by (rewrite E; constructor; [constructor | assumption | assumption]).
     split; [eapply chain_trans; eauto|].
@@ -740,18 +691,11 @@ Section Phase14Inv.
       + destruct (first_search colflow _ false _ _ if1 si ssz _ if1) as [[[k fi] fsz]|] eqn:S; [|discriminate].
         apply first_search_result in S as [S0 [S1 [S2 S3]]]. intros H; inversion H; subst; cbn.
         eexists; split; [reflexivity|]. rewrite first_of_mk, second_of_mk. cbn. repeat split; try lia; discriminate.
-      + destruct (fst_s colflow it) eqn:Efs; [| discriminate N1 |].
-        * match goal with |- context[first_search colflow ?f true GAuto ?e ?c si ssz ?p ?k] =>
-            destruct (first_search colflow f true GAuto e c si ssz p k) as [[[k' fi] fsz]|] eqn:S end; [|discriminate].
-          apply first_search_result in S as [S0 [S1 [S2 S3]]]. intros H; inversion H; subst; cbn.
-          eexists; split; [reflexivity|]. rewrite first_of_mk, second_of_mk. cbn.
-          repeat split; try lia; try discriminate; split_ifs; lia.
-        * destruct (st_stale st); [|discriminate].
-          match goal with |- context[stale_search ?a ?b ?c ?d ?e ?f ?g ?h] =>
-            destruct (stale_search a b c d e f g h) as [[[k' fi] fsz]|] eqn:S end; [|discriminate].
-          apply stale_search_result in S as [S0 [S1 [S2 S3]]]. intros H; inversion H; subst; cbn.
-          eexists; split; [reflexivity|]. rewrite first_of_mk, second_of_mk. cbn.
-          repeat split; try lia; try discriminate; split_ifs; lia.
+      + match goal with |- context[first_search colflow ?f true ?g ?e ?c si ssz ?p ?k] =>
+          destruct (first_search colflow f true g e c si ssz p k) as [[[k' fi] fsz]|] eqn:S end; [|discriminate].
+        apply first_search_result in S as [S0 [S1 [S2 S3]]]. intros H; inversion H; subst; cbn.
+        eexists; split; [reflexivity|]. rewrite first_of_mk, second_of_mk. cbn.
+        repeat split; try lia; try discriminate; split_ifs; lia.
     - specialize (F eq_refl). apply get_placement_none in E as [N3 N4].
       match goal with |- context[auto_loop ?a ?b ?c ?d ?e ?f ?g ?h ?i ?j ?k ?l] =>
         destruct (auto_loop a b c d e f g h i j k l) as [[[[[a' fi] fsz] cf'] if2']|] eqn:S end; [|discriminate].
@@ -777,7 +721,7 @@ Section Phase14Inv.
     induction rem as [|[i it] r IH]; intros st st' Hr Hcf Hcs; cbn [phase14].
     { intros H; inversion H; subst. split; [lia|]. split; [lia|]. split; [intros; lia|].
       exists []. split; [reflexivity|]. split; [reflexivity | intros ? []]. }
-    destruct (step14 colflow dense is1 is2 if1 st (i, it)) as [st1| | |] eqn:S; try discriminate.
+    destruct (step14 colflow dense is1 is2 if1 st (i, it)) as [st1|] eqn:S; try discriminate.
     destruct (Hr i it (or_introl eq_refl)) as [R1 R2].
     destruct (step14_inv _ _ _ _ R1 R2 Hcf Hcs S) as [a [E [A1 [A2 [A3 [A4 [A5 A6]]]]]]].
     intros H.
@@ -794,7 +738,7 @@ Section Phase14Inv.
     phase14 colflow dense is1 is2 if1 (r1 ++ r2) st =
     match phase14 colflow dense is1 is2 if1 r1 st with
     | Ok st1 => phase14 colflow dense is1 is2 if1 r2 st1
-    | CrashUnbound => CrashUnbound | Hang => Hang | OutOfFuel => OutOfFuel
+    | OutOfFuel => OutOfFuel
     end.
   Proof.
     revert st. induction r1 as [|c r IH]; intros st; cbn [app phase14]; [reflexivity|].
@@ -949,9 +893,9 @@ Lemma grid_place_setup tc tr colflow dense items : valid_items items ->
     (forall i it, In (i, it) children -> fully_auto it -> In (i, it) rem) /\
     (forall i it, In (i, it) children -> is_placed i l2 = true \/ In (i, it) rem) /\
     grid_place_log tc tr colflow dense items =
-      match phase14 colflow dense is1 is2 if1 rem (mkState l2 if1 is1 if2 None) with
+      match phase14 colflow dense is1 is2 if1 rem (mkState l2 if1 is1 if2) with
       | Ok st => Ok (st_log st, bounds_of colflow if1 (st_if2 st) is1 is2)
-      | CrashUnbound => CrashUnbound | Hang => Hang | OutOfFuel => OutOfFuel
+      | OutOfFuel => OutOfFuel
       end.
 Proof.
   intros Hval doc children.
@@ -1043,7 +987,7 @@ Lemma grid_place_lookup tc tr colflow dense items pl b :
   exists l, grid_place_log tc tr colflow dense items = Ok (l, b) /\ length pl = length items /\
             forall i o, nth_error pl i = Some o -> (i < length items)%nat /\ o = lookup_area i l.
 Proof.
-  unfold grid_place. destruct (grid_place_log tc tr colflow dense items) as [[l b']| | |]; try discriminate.
+  unfold grid_place. destruct (grid_place_log tc tr colflow dense items) as [[l b']|]; try discriminate.
   intros H. inversion H; subst. exists l. split; [reflexivity|]. split; [rewrite map_length, seq_length; reflexivity|].
   intros i o Hn. assert (Hi : (i < length items)%nat).
   { assert (X : nth_error (map (fun i => lookup_area i l) (seq 0 (length items))) i <> None) by congruence.
@@ -1083,7 +1027,7 @@ Proof.
   destruct (grid_place_lookup _ _ _ _ _ _ _ Hok) as [l [El [_ Hl]]].
   destruct (grid_place_setup tc tr colflow dense items Hval)
     as [l1 [l2 [is1 [is2 [if1 [if2 [rem [E1 [P1 [_ [C12 [_ [_ [_ [_ [_ [_ E]]]]]]]]]]]]]]]]].
-  rewrite E in El. destruct (phase14 colflow dense is1 is2 if1 rem _) as [st| | |] eqn:P14; try discriminate.
+  rewrite E in El. destruct (phase14 colflow dense is1 is2 if1 rem _) as [st|] eqn:P14; try discriminate.
   inversion El; subst l. destruct (phase14_chain _ _ _ _ _ _ _ _ P14) as [C14 _]. cbn [st_log] in C14.
   pose proof (chain_trans _ _ _ C12 C14) as C.
   destruct (Hl i _ Pi) as [_ Li]. destruct (Hl j _ Pj) as [_ Lj]. symmetry in Li, Lj.
@@ -1104,7 +1048,7 @@ Proof.
   intros Hval Hok. destruct (grid_place_lookup _ _ _ _ _ _ _ Hok) as [l [El [Hlen Hl]]]. split; [exact Hlen|].
   destruct (grid_place_setup tc tr colflow dense items Hval)
     as [l1 [l2 [is1 [is2 [if1 [if2 [rem [E1 [P1 [_ [C12 [_ [_ [_ [_ [_ [Hall E]]]]]]]]]]]]]]]]].
-  rewrite E in El. destruct (phase14 colflow dense is1 is2 if1 rem _) as [st| | |] eqn:P14; try discriminate.
+  rewrite E in El. destruct (phase14 colflow dense is1 is2 if1 rem _) as [st|] eqn:P14; try discriminate.
   inversion El; subst l. destruct (phase14_chain _ _ _ _ _ _ _ _ P14) as [C14 Pl14]. cbn [st_log] in C14.
   pose proof (chain_trans _ _ _ C12 C14) as C.
   intros i Hi. destruct (nth_error items i) as [it|] eqn:Ei; [|apply nth_error_None in Ei; lia].
@@ -1132,9 +1076,9 @@ Proof.
   destruct (grid_place_lookup _ _ _ _ _ _ _ Hok) as [l [El [_ Hl]]].
   destruct (grid_place_setup tc tr colflow dense items Hval)
     as [l1 [l2 [is1 [is2 [if1 [if2 [rem [E1 [P1 [_ [C12 [_ [_ [Hrem [B2 [_ [_ E]]]]]]]]]]]]]]]]].
-  rewrite E in El. destruct (phase14 colflow dense is1 is2 if1 rem _) as [st| | |] eqn:P14; try discriminate.
+  rewrite E in El. destruct (phase14 colflow dense is1 is2 if1 rem _) as [st|] eqn:P14; try discriminate.
   inversion El as [[El1 El2]]. clear El. subst l.
-  pose proof (phase14_inv colflow dense is1 is2 if1 rem (mkState l2 if1 is1 if2 None) st Hrem) as X.
+  pose proof (phase14_inv colflow dense is1 is2 if1 rem (mkState l2 if1 is1 if2) st Hrem) as X.
   cbn [st_cf st_cs] in X. specialize (X ltac:(lia) ltac:(lia) P14).
   destruct X as [_ [_ [_ [new [En [_ Bn]]]]]]. cbn [st_log] in En.
   destruct (Hl i _ Pi) as [_ Li]. symmetry in Li. apply lookup_in in Li. rewrite En in Li.
@@ -1149,8 +1093,8 @@ Lemma phase14_split colflow dense is1 is2 if1 r1 c r2 st st' :
   exists s1 s2, phase14 colflow dense is1 is2 if1 r1 st = Ok s1 /\ step14 colflow dense is1 is2 if1 s1 c = Ok s2 /\
                 phase14 colflow dense is1 is2 if1 r2 s2 = Ok st'.
 Proof.
-  rewrite phase14_app. destruct (phase14 colflow dense is1 is2 if1 r1 st) as [s1| | |] eqn:E1; try discriminate.
-  cbn [phase14]. destruct (step14 colflow dense is1 is2 if1 s1 c) as [s2| | |] eqn:E2; try discriminate.
+  rewrite phase14_app. destruct (phase14 colflow dense is1 is2 if1 r1 st) as [s1|] eqn:E1; try discriminate.
+  cbn [phase14]. destruct (step14 colflow dense is1 is2 if1 s1 c) as [s2|] eqn:E2; try discriminate.
   intros H. exists s1, s2. repeat split; auto.
 Qed.
 
@@ -1184,7 +1128,7 @@ Proof.
   intros Hval El ch1 i it ch2 j jt ch3 Ech Fi Fj a c La Lc.
   destruct (grid_place_setup tc tr colflow false items Hval)
     as [l1 [l2 [is1 [is2 [if1 [if2 [rem [E1 [P1 [_ [C12 [ND2 [Frem [Hrem [B2 [Hfa [_ E]]]]]]]]]]]]]]]]].
-  rewrite E in El. destruct (phase14 colflow false is1 is2 if1 rem _) as [st| | |] eqn:P14; try discriminate.
+  rewrite E in El. destruct (phase14 colflow false is1 is2 if1 rem _) as [st|] eqn:P14; try discriminate.
   inversion El; subst l b. clear El.
   set (P := fun p : nat * item => match lookup_area (fst p) l2 with None => true | Some _ => false end) in *.
   assert (Ii : In (i, it) rem) by (apply Hfa; [rewrite Ech; apply in_or_app; right; left; reflexivity | exact Fi]).
@@ -1213,7 +1157,7 @@ Proof.
   { intros k kt H. apply (Hrem k kt). apply in_or_app. right. right. apply in_or_app. right. right. exact H. }
   destruct (Hrem i it) as [Ri Wi]; [apply in_or_app; right; left; reflexivity|].
   destruct (Hrem j jt) as [Rj Wj]; [apply in_or_app; right; right; apply in_or_app; right; left; reflexivity|].
-  pose proof (phase14_inv colflow false is1 is2 if1 r1 (mkState l2 if1 is1 if2 None) s1 H1) as X.
+  pose proof (phase14_inv colflow false is1 is2 if1 r1 (mkState l2 if1 is1 if2) s1 H1) as X.
   cbn [st_cf st_cs] in X. specialize (X ltac:(lia) ltac:(lia) Q1).
   destruct X as [A1 [A2 [_ [n1 [L1 [M1 _]]]]]]. cbn [st_log] in L1.
   destruct (step14_inv colflow false is1 is2 if1 _ _ _ _ Ri Wi A1 A2 Q2) as [ai [L2 [A3 [A4 [_ [_ [_ A5]]]]]]].
@@ -1245,44 +1189,130 @@ Proof.
   inversion La; inversion Lc; subst. lia.
 Qed.
 
-(* ---- Hang is a real divergence of grid_layout's loop, CrashUnbound a real unbound read *)
-Lemma stale_search_first fuel fs si ssz ps stale k :
-  stale_search false (S fuel) fs si ssz ps stale k = None -> stale_search false 1 fs si ssz ps stale k = None
-with stale_search_first_c fuel fs si ssz ps stale k :
-  stale_search true (S fuel) fs si ssz ps stale k = None -> stale_search true 1 fs si ssz ps stale k = None.
+(* ---- items placed by line numbers on both axes keep exactly those lines (phase 1.1 is never overwritten) *)
+Lemma phase11_area its : forall l i a, In (i, a) (phase11 its l) ->
+  In (i, a) l \/ exists it x w y h, In (i, it) its /\ get_placement (col_s it) (col_e it) = Some (x, w) /\
+                                    get_placement (row_s it) (row_e it) = Some (y, h) /\ a = (x, y, w, h).
 Proof.
-  - cbn. destruct (pl_line_end fs (stale + 1 + get_span fs)) as [fi fsz]. destruct (fi <? k); [reflexivity|].
-    destruct (intersect_with_children _ ps); [reflexivity | discriminate].
-  - cbn. destruct (pl_line_end fs (stale + 1 + get_span fs)) as [fi fsz]. destruct (fi <? k); [reflexivity|].
-    destruct (intersect_with_children _ ps); [reflexivity | discriminate].
+  induction its as [|[j jt] r IH]; intros l i a; cbn [phase11]; [auto|].
+  destruct (get_placement (col_s jt) (col_e jt)) as [[x w]|] eqn:E1;
+    [destruct (get_placement (row_s jt) (row_e jt)) as [[y h]|] eqn:E2|]; intros H; apply IH in H.
+  - destruct H as [[H | H] | [it [x' [w' [y' [h' [A B]]]]]]].
+    + inversion H; subst. right. exists jt, x, w, y, h. repeat split; auto. left; reflexivity.
+    + left; exact H.
+    + right. exists it, x', w', y', h'. split; [right; exact A | exact B].
+  - destruct H as [H | [it [x' [w' [y' [h' [A B]]]]]]]; [left; exact H|].
+    right. exists it, x', w', y', h'. split; [right; exact A | exact B].
+  - destruct H as [H | [it [x' [w' [y' [h' [A B]]]]]]]; [left; exact H|].
+    right. exists it, x', w', y', h'. split; [right; exact A | exact B].
 Qed.
 
-Theorem grid_hang_is_divergence colflow dense is1 is2 if1 st i it :
-  item_valid it = true -> get_placement (fst_s colflow it) (fst_e colflow it) = None ->
-  step14 colflow dense is1 is2 if1 st (i, it) = Hang ->
-  dense = false /\
-  exists n stale si ssz,
-    fst_s colflow it = GSpan n /\ st_stale st = Some stale /\
-    get_placement (snd_s colflow it) (snd_e colflow it) = Some (si, ssz) /\
-    forall fuel, stale_search colflow fuel (GSpan n) si ssz (areas (st_log st)) stale
-                              (if si <? st_cs st then st_cf st + 1 else st_cf st) = None.
+Theorem grid_definite_honoured tc tr colflow dense items pl b :
+  valid_items items -> grid_place tc tr colflow dense items = Ok (pl, b) ->
+  forall i it x w y h, nth_error items i = Some it ->
+    get_placement (col_s it) (col_e it) = Some (x, w) -> get_placement (row_s it) (row_e it) = Some (y, h) ->
+    nth_error pl i = Some (Some (x, y, w, h)).
 Proof.
-  intros V N. apply get_placement_none in N as [N1 _]. destruct (valid_first colflow it V) as [V1 _]. unfold step14.
-  destruct (get_placement (snd_s colflow it) (snd_e colflow it)) as [[si ssz]|] eqn:E.
-  - destruct dense.
-    + destruct (first_search colflow _ false _ _ if1 si ssz _ if1) as [[[k fi] fsz]|]; discriminate.
-    + destruct (fst_s colflow it) as [|m|n] eqn:Efs; [| discriminate N1 |].
-      * match goal with |- context[first_search colflow ?f true GAuto ?e ?c si ssz ?p ?k] =>
-          destruct (first_search colflow f true GAuto e c si ssz p k) as [[[k' fi] fsz]|] end; discriminate.
-      * destruct (st_stale st) as [stale|]; [|discriminate].
-        match goal with |- context[stale_search ?a ?b ?c ?d ?e ?f ?g ?h] =>
-          destruct (stale_search a b c d e f g h) as [[[k' fi] fsz]|] eqn:S end; [discriminate|].
-        intros _. split; [reflexivity|]. exists n, stale, si, ssz. repeat split; auto.
-        cbn in V1. assert (Hn : 1 <= n) by lia. unfold search_fuel in S. destruct colflow.
-        -- apply stale_search_first_c in S. apply (stale_search_diverges true n si ssz _ stale _ Hn S).
-        -- apply stale_search_first in S. apply (stale_search_diverges false n si ssz _ stale _ Hn S).
-  - match goal with |- context[auto_loop ?a ?b ?c ?d ?e ?f ?g ?h ?i ?j ?k ?l] =>
-      destruct (auto_loop a b c d e f g h i j k l) as [[[[[a' fi] fsz] cf'] if2']|] end; discriminate.
+  intros Hval Hok i it x w y h Ii Gc Gr.
+  destruct (grid_place_lookup _ _ _ _ _ _ _ Hok) as [l [El [Hlen Hl]]].
+  destruct (grid_place_setup tc tr colflow dense items Hval)
+    as [l1 [l2 [is1 [is2 [if1 [if2 [rem [E1 [P1 [_ [C12 [ND2 [Frem [Hrem [B2 [_ [_ E]]]]]]]]]]]]]]]]].
+  rewrite E in El. destruct (phase14 colflow dense is1 is2 if1 rem _) as [st|] eqn:P14; try discriminate.
+  inversion El as [[El1 El2]]. clear El. subst l.
+  pose proof (phase14_inv colflow dense is1 is2 if1 rem (mkState l2 if1 is1 if2) st Hrem) as X.
+  cbn [st_cf st_cs] in X. specialize (X ltac:(lia) ltac:(lia) P14).
+  destruct X as [_ [_ [_ [new [En [Mn _]]]]]]. cbn [st_log] in En.
+  set (doc := index_from 0 items) in *.
+  assert (Hdoc : In (i, it) doc) by (apply doc_nth; exact Ii).
+  assert (D : definite_item it = true) by (unfold definite_item; rewrite Gc, Gr; reflexivity).
+  destruct (phase11_spec doc []) as [new1 [E11 [_ P2]]].
+  pose proof (P2 i it Hdoc D) as Pl1. rewrite <- E11, <- E1 in Pl1.
+  apply is_placed_lookup_some in Pl1 as [a La]. apply lookup_in in La.
+  assert (Ea : a = (x, y, w, h)).
+  { rewrite E1 in La. apply phase11_area in La as [[] | [it' [x' [w' [y' [h' [A [B1 [B2' B3]]]]]]]]].
+    rewrite (nodup_fst_unique doc i it' it (index_from_nodup items 0) A Hdoc) in B1, B2'. congruence. }
+  subst a. destruct (chain_ext _ _ C12) as [n12 E12].
+  assert (L2 : lookup_area i l2 = Some (x, y, w, h)).
+  { apply in_lookup; [exact ND2|]. rewrite E12. apply in_or_app. right. exact La. }
+  assert (Nn : ~ In i (map fst new)).
+  { rewrite Mn, <- in_rev. intros Hin. apply in_map_iff in Hin as [[j jt] [Ej Hj]]. cbn in Ej. subst j.
+    rewrite Frem in Hj. apply filter_In in Hj as [_ Hj]. cbn [fst] in Hj. rewrite L2 in Hj. discriminate. }
+  assert (Hi : (i < length pl)%nat) by (rewrite Hlen; apply nth_error_Some; congruence).
+  destruct (nth_error pl i) as [o|] eqn:En'; [|apply nth_error_None in En'; lia].
+  destruct (Hl i o En') as [_ ->]. rewrite En, (lookup_app_not_in i new l2 Nn), L2. reflexivity.
+Qed.
+
+(* ---- css-grid 8.3: the placement computed from the grid-placement properties, negative integers counted from
+   the end of the explicit grid (`from_end=True`), is the range of lines that css-grid defines *)
+Theorem placement_is_css (explicit : Z) (s e : gline) : gline_valid s = true -> gline_valid e = true ->
+  get_placement (resolve_line (explicit + 1) s) (resolve_line (explicit + 1) e) = css_range explicit s e.
+Proof.
+  intros Vs Ve. unfold resolve_line, css_range, css_line.
+  destruct s as [|a|n], e as [|b|m]; cbn in Vs, Ve; try reflexivity;
+    repeat match goal with |- context[if ?x <? 0 then GLine _ else GLine _] => destruct (x <? 0) eqn:? end;
+    cbn [get_placement]; unfold pl_line_start, pl_line_end, norm, or1; split_ifs;
+    try (apply f_equal; apply pair_equal_spec; split; lia); lia.
+Qed.
+
+(* ---- the same theorems for step 1 on the items of the style sheet (negative lines resolved first) *)
+Lemma resolve_valid tc tr items : valid_items items -> valid_items (map (resolve_item tc tr) items).
+Proof.
+  intros H it Hin. apply in_map_iff in Hin as [it0 [<- Hin]]. specialize (H it0 Hin).
+  unfold item_valid in *. rewrite !andb_true_iff in *. unfold resolve_item; cbn.
+  destruct H as [[[A B] C] D]. repeat split;
+    match goal with |- gline_valid (resolve_line _ ?g) = true => destruct g; cbn in *; split_ifs; auto end.
+Qed.
+
+Lemma resolve_definite tc tr it : definite_item (resolve_item tc tr it) = definite_item it.
+Proof.
+  unfold definite_item, resolve_item; cbn.
+  destruct (col_s it), (col_e it), (row_s it), (row_e it); cbn;
+    repeat match goal with |- context[if ?x <? 0 then _ else _] => destruct (x <? 0) end; reflexivity.
+Qed.
+
+Theorem layout_no_overlap tc tr colflow dense items pl b :
+  valid_items items -> grid_layout_place tc tr colflow dense items = Ok (pl, b) ->
+  forall i j iti itj ai aj, i <> j ->
+    nth_error items i = Some iti -> nth_error items j = Some itj ->
+    nth_error pl i = Some (Some ai) -> nth_error pl j = Some (Some aj) ->
+    definite_item iti && definite_item itj = false ->
+    forall cx cy, in_area ai cx cy -> in_area aj cx cy -> False.
+Proof.
+  intros Hval Hok i j iti itj ai aj N Ii Ij Pi Pj D.
+  apply (grid_no_overlap tc tr colflow dense _ pl b (resolve_valid tc tr items Hval) Hok i j
+           (resolve_item tc tr iti) (resolve_item tc tr itj) ai aj N); auto using map_nth_error.
+  rewrite !resolve_definite. exact D.
+Qed.
+
+(* all items placed; every definite axis pair is the css-grid 8.3 range (negative integers from the end); areas
+   are inside the implicit grid on the second axis and never before its first track: the coordinates counted from
+   the first implicit track (what the track sizing and step 4 index the track lists with) are >= 0 *)
+Theorem layout_placement tc tr colflow dense items pl x1 x2 y1 y2 :
+  valid_items items -> grid_layout_place tc tr colflow dense items = Ok (pl, (x1, x2, y1, y2)) ->
+  length pl = length items /\
+  forall i it, nth_error items i = Some it ->
+    exists x y w h, nth_error pl i = Some (Some (x, y, w, h)) /\ 1 <= w /\ 1 <= h /\
+      0 <= x - x1 /\ 0 <= y - y1 /\ (if colflow then y + h <= y2 else x + w <= x2) /\
+      (forall cx cw cy ch, css_range (Z.max 1 tc) (col_s it) (col_e it) = Some (cx, cw) ->
+                           css_range (Z.max 1 tr) (row_s it) (row_e it) = Some (cy, ch) ->
+                           (x, y, w, h) = (cx, cy, cw, ch)).
+Proof.
+  intros Hval Hok. pose proof (resolve_valid tc tr items Hval) as Hv'.
+  destruct (grid_all_placed _ _ _ _ _ _ _ Hv' Hok) as [Hlen Hall]. rewrite map_length in Hlen, Hall.
+  split; [exact Hlen|]. intros i it Ii.
+  assert (Hi : (i < length items)%nat) by (apply nth_error_Some; congruence).
+  destruct (Hall i Hi) as [x [y [w [h [Pi [Hw Hh]]]]]]. exists x, y, w, h.
+  pose proof (grid_inside_implicit_bounds _ _ _ _ _ _ _ _ _ _ Hv' Hok i x y w h Pi) as B.
+  split; [exact Pi|]. split; [exact Hw|]. split; [exact Hh|].
+  split; [destruct colflow; lia|]. split; [destruct colflow; lia|]. split; [destruct colflow; lia|].
+  intros cx cw cy ch Cc Cr.
+  assert (V : item_valid it = true) by (apply Hval; eapply nth_error_In; eauto).
+  apply item_valid_parts in V as [V1 [V2 [V3 V4]]].
+  pose proof (grid_definite_honoured _ _ _ _ _ _ _ Hv' Hok i (resolve_item tc tr it) cx cw cy ch
+                (map_nth_error _ _ _ Ii)) as G.
+  cbn [resolve_item col_s col_e row_s row_e] in G.
+  rewrite (placement_is_css (Z.max 1 tc) _ _ V1 V2), (placement_is_css (Z.max 1 tr) _ _ V3 V4) in G.
+  specialize (G Cc Cr). rewrite Pi in G. inversion G. reflexivity.
 Qed.
 
 (* ================================================================================= examples, refutations *)
@@ -1346,34 +1376,29 @@ Theorem grid_locked_item_skips_first_cell :
   grid_place 3 2 false false [it_ GAuto GAuto (GLine 1) GAuto] = Ok ([Some (1, 0, 1, 1)], (0, 3, 0, 2)).
 Proof. vm_compute. reflexivity. Qed.
 
-(* F-d / F-e  sparse mode, an item whose flow axis is `span n` and whose other axis is a line number reads the
-   variable first_i left by the previous item: unbound for the first such item, else a loop that cannot exit *)
-Theorem grid_unbound_first_i : grid_place 3 2 false false [it_ (GLine 1) GAuto (GSpan 2) GAuto] = CrashUnbound.
+(* fixed in /repo (F70/F71): sparse mode, an item whose flow axis is `span n` and whose other axis is a line number
+   computes its end line from cursor_first: it is placed, alone or after another item *)
+Example grid_span_locked_first : grid_place 3 2 false false [it_ (GLine 1) GAuto (GSpan 2) GAuto] = Ok ([Some (0, 0, 1, 2)], (0, 3, 0, 2)).
 Proof. vm_compute. reflexivity. Qed.
-Theorem grid_hang_refuted : grid_place 3 2 false false [auto_item; it_ (GLine 1) GAuto (GSpan 2) GAuto] = Hang.
+Example grid_span_locked_second :
+  grid_place 3 2 false false [auto_item; it_ (GLine 1) GAuto (GSpan 2) GAuto] = Ok ([Some (0, 0, 1, 1); Some (0, 1, 1, 2)], (0, 3, 0, 3)).
 Proof. vm_compute. reflexivity. Qed.
 
-(* F-a  negative integers are not counted from the end edge of the explicit grid: `grid-column-start: -1` in a
-   3-column grid is line 4 (area x = 3) for css-grid 8.3, the model (and the code) answers x = -2 *)
-Theorem grid_negative_line_refuted :
-  exists a, grid_place 3 2 false false [it_ (GLine (-1)) GAuto (GLine 1) GAuto] = Ok ([Some a], (-2, 3, 0, 2)) /\
-            a = (-2, 0, 1, 1) /\ css_range 3 (GLine (-1)) GAuto = Some (3, 1) /\
-            spec_lines 3 2 (it_ (GLine (-1)) GAuto (GLine 1) GAuto) a = false.
+(* fixed in /repo (F68): `grid-column-start: -1` in a 3-column grid is line 4 (area x = 3), as css-grid 8.3 says *)
+Example grid_negative_line_from_end :
+  exists a, grid_layout_place 3 2 false false [it_ (GLine (-1)) GAuto (GLine 1) GAuto] = Ok ([Some a], (0, 4, 0, 2)) /\
+            a = (3, 0, 1, 1) /\ css_range 3 (GLine (-1)) GAuto = Some (3, 1) /\
+            spec_lines 3 2 (it_ (GLine (-1)) GAuto (GLine 1) GAuto) a = true.
 Proof. eexists. split; [vm_compute; reflexivity|]. repeat split; reflexivity. Qed.
 
-(* F-b  Python's negative indexing: an area on implicit tracks before the explicit grid is drawn on tracks taken
-   from the END of the track list (x = -1 -> position of the last column, and the slice [-1:0] is empty: width 0
-   instead of the 41px implicit column at x = 0), and a negative row removes the item from the page *)
-Theorem grid_negative_index_wraps :
+(* fixed in /repo (F69, F72): an area on implicit tracks before the explicit grid is drawn on the leading implicit
+   track (shifted coordinates), for both flow axes *)
+Example grid_leading_implicit_tracks :
   render_model (mkPcase [13; 17; 19] [23; 29] 41 43 false false 3 5 [it_ GAuto (GLine 1) (GLine 1) GAuto]) =
-    ROk [Some (-1, 0, 1, 1)] [Some (41 + 3 + 13 + 3 + 17 + 3, 0, 0, 23)] /\
+    ROk [Some (0, 0, 1, 1)] [Some (0, 0, 41, 23)] /\
   css_rect (mkPcase [13; 17; 19] [23; 29] 41 43 false false 3 5 []) (-1) 0 (-1, 0, 1, 1) = (0, 0, 41, 23) /\
   render_model (mkPcase [13; 17; 19] [23; 29] 41 43 false false 3 5 [it_ (GLine 1) GAuto GAuto (GLine 1)]) =
-    ROk [Some (0, -1, 1, 1)] [None].
+    ROk [Some (0, 0, 1, 1)] [Some (0, 0, 13, 43)] /\
+  render_model (mkPcase [13; 17; 19] [23; 29] 41 43 true false 3 5 [it_ (GLine 3) GAuto (GLine (-5)) GAuto]) =
+    ROk [Some (2, 0, 1, 1)] [Some (13 + 3 + 17 + 3, 0, 19, 43)].
 Proof. repeat split; vm_compute; reflexivity. Qed.
-
-(* F-h  _resolve_tracks_sizes is given implicit_second_1 as the start of the COLUMN tracks even when the second
-   axis is the row axis (grid-auto-flow: column): IndexError *)
-Theorem grid_index_error :
-  render_model (mkPcase [13; 17; 19] [23; 29] 41 43 true false 3 5 [it_ (GLine 3) GAuto (GLine (-2)) GAuto]) = RCrashIndex.
-Proof. vm_compute. reflexivity. Qed.
